@@ -65,7 +65,11 @@ func (c *c01PacketConn) SetWriteDeadline(_ time.Time) error { return nil }
 
 // c01Conn is a fake net.Conn: a byte stream to read, written bytes captured.
 type c01Conn struct {
-	in     *bytes.Reader
+	in *bytes.Reader
+	// pieces, if in is nil, are the segments the client's octets arrive in: a
+	// Read never returns octets of more than one piece (a TCP segment, a TLS
+	// record).
+	pieces [][]byte
 	out    bytes.Buffer
 	closed bool
 }
@@ -74,8 +78,22 @@ func (c *c01Conn) Read(p []byte) (n int, err error) {
 	if c.closed {
 		return 0, net.ErrClosed
 	}
+	if c.in != nil {
+		return c.in.Read(p)
+	}
+	for len(c.pieces) > 0 && len(c.pieces[0]) == 0 {
+		c.pieces = c.pieces[1:]
+	}
+	if len(c.pieces) == 0 {
+		return 0, io.EOF
+	}
+	if len(p) == 0 {
+		return 0, nil
+	}
+	n = copy(p, c.pieces[0])
+	c.pieces[0] = c.pieces[0][n:]
 
-	return c.in.Read(p)
+	return n, nil
 }
 
 func (c *c01Conn) Write(p []byte) (n int, err error) {
@@ -579,9 +597,109 @@ func (ts *c01TCPSession) next() (obs c01TObs, readErr error) {
 	return obs, readErr
 }
 
-// c01TCP sends one framed message on a fresh connection.
+// c01TCP sends one framed message on a fresh connection, in every
+// segmentation.
 func c01TCP(s *ServerDNS, stream []byte) (obs c01TObs) {
-	obs, _ = c01NewTCPSession(s, stream).next()
+	return c01TCPStream(s, [][]byte{stream})[0]
+}
+
+// c01TCPSegmentation is one way the octets of a TCP / TLS stream are cut
+// into the pieces single Reads return.
+type c01TCPSegmentation struct {
+	name string
+	cut  func(stream []byte, firstLen int) [][]byte
+}
+
+// c01TCPSegmentations: one piece (the primary delivery the oracle judges);
+// prefix | message; first prefix octet | rest; first | middle | last octet;
+// octet by octet; single cuts at 3 and at len-1; and, for two pipelined
+// messages, cuts at the boundary and inside the second length prefix.
+var c01TCPSegmentations = []c01TCPSegmentation{
+	{"1-piece", func(b []byte, _ int) [][]byte { return [][]byte{b} }},
+	{"cut@2", func(b []byte, _ int) [][]byte { return c01SplitAt(b, 2) }},
+	{"cut@1", func(b []byte, _ int) [][]byte { return c01SplitAt(b, 1) }},
+	{"first|middle|last", func(b []byte, _ int) [][]byte { return c01SplitAt(b, 1, -1) }},
+	{"octet-by-octet", func(b []byte, _ int) (out [][]byte) {
+		if len(b) > 600 {
+			// Keep large messages affordable: the first two octets on their
+			// own, then 97-octet pieces.
+			out = append(out, b[0:1], b[1:2])
+			for i := 2; i < len(b); i += 97 {
+				out = append(out, b[i:min(i+97, len(b))])
+			}
+
+			return out
+		}
+		for i := range b {
+			out = append(out, b[i:i+1])
+		}
+
+		return out
+	}},
+	{"cut@3", func(b []byte, _ int) [][]byte { return c01SplitAt(b, 3) }},
+	{"cut@len-1", func(b []byte, _ int) [][]byte { return c01SplitAt(b, -1) }},
+	{"cut@boundary", func(b []byte, l int) [][]byte { return c01SplitAt(b, l) }},
+	{"cut-in-2nd-prefix", func(b []byte, l int) [][]byte { return c01SplitAt(b, l+1) }},
+	{"cut@1+in-2nd-prefix", func(b []byte, l int) [][]byte { return c01SplitAt(b, 1, l+1) }},
+}
+
+func c01TCPShape(o c01TObs) (sh string) {
+	sh = fmt.Sprintf("responses=%d closed=%v panicked=%v garbled=%v", len(o.Msgs), o.Closed, o.Panicked != "", o.Garbled != "")
+	for _, m := range o.Msgs {
+		sh += fmt.Sprintf(" [id=%d %s q=%s an=%d ns=%d ex=%d]", m.Id, dns.RcodeToString[m.Rcode], vdns.Question(m), len(m.Answer), len(m.Ns), len(m.Extra))
+	}
+
+	return sh
+}
+
+// c01TCPStream sends the given frames (length-prefixed messages, or arbitrary
+// octets) over one fresh connection, letting the real acceptTCPMsg read and
+// serve them one after the other, once per segmentation.  It returns the
+// observations of the one-piece delivery; a treatment that differs in any
+// other segmentation is attached to the first observation as a finding.
+func c01TCPStream(s *ServerDNS, frames [][]byte) (obs []c01TObs) {
+	t := "tcp"
+	if s.proto == ProtoDoT {
+		t = "dot"
+	}
+	var stream []byte
+	for _, f := range frames {
+		stream = append(stream, f...)
+	}
+	var primary []string
+	for si, seg := range c01TCPSegmentations {
+		if si >= 7 && len(frames) < 2 {
+			break
+		}
+		var pieces [][]byte
+		for _, pc := range seg.cut(stream, len(frames[0])) {
+			pieces = append(pieces, append([]byte{}, pc...))
+		}
+		ts := &c01TCPSession{s: s, conn: &c01Conn{pieces: pieces}, wg: &sync.WaitGroup{}, writeMu: &sync.Mutex{}}
+		var cur []c01TObs
+		var shapes []string
+		for range frames {
+			o, _ := ts.next()
+			cur = append(cur, o)
+			shapes = append(shapes, c01TCPShape(o))
+			if o.Closed || o.Panicked != "" {
+				break
+			}
+		}
+		if si == 0 {
+			obs, primary = cur, shapes
+
+			continue
+		}
+		if fmt.Sprint(shapes) != fmt.Sprint(primary) {
+			obs[0].Findings = append(obs[0].Findings, vrt.F(t+"/treatment-depends-on-stream-segmentation",
+				"stream of %d octets (%d frame(s)): in one piece -> %v; delivered %s -> %v", len(stream), len(frames), primary, seg.name, shapes)...)
+		}
+	}
+	for len(obs) < len(frames) {
+		// Not reached: the connection was closed before.
+		obs = append(obs, c01TObs{Closed: true})
+	}
 
 	return obs
 }
@@ -1122,15 +1240,14 @@ func c01RunQuery(r *vrt.Run, c c01Query) (fs []vrt.Finding) {
 		if t == "dot" {
 			s = rig.dot
 		}
-		ts := c01NewTCPSession(s, append(c01Frame(wire), c01Frame(sentWire)...))
-		first, _ := ts.next()
+		both := c01TCPStream(s, [][]byte{c01Frame(wire), c01Frame(sentWire)})
+		first, second := both[0], both[1]
 		r.Trans(1)
 		fs = append(fs, c01CheckQueryOn(r, t, wire, sp.Ref, sp.H, first)...)
 		if first.Closed {
 			// Documented for "nothing written".
 			continue
 		}
-		second, _ := ts.next()
 		r.Trans(1)
 		fs = append(fs, c01CheckSentinel(r, t, "same-connection", sentWire, sent, second)...)
 	}
